@@ -70,6 +70,7 @@ func checkC12(rep *Report, rng *Rng, tier string) {
 	if tier == "thorough" {
 		n = 5000
 	}
+	probeNonUTF8Name(rep)
 	rep.Rule = "seeded histories interleaving SetCollection (new and existing names), RemoveCollection (present and absent), GetCollection/GetCollectionNames and item mutations through the current handles with flushes and re-opens; names and the full contents of every collection are compared with the reference after every step, and a fresh Store opened on a copy of the file image must show the state at the last Flush; non-trivial = at least 8 ops incl. one collection-management op"
 	HistoryLoop(rep, rng, n, func(r *Rng, i int) (RunCfg, []Op, string) {
 		g := GenCfg{FileBacked: r.Chance(3, 4), NColls: 2 + r.Intn(3), NOps: 30 + r.Intn(60), Structural: true, CollMgmt: true, PrioMode: r.Intn(4), CmpMode: r.Intn(2)}
